@@ -248,7 +248,42 @@ def sw_evaluate_ranges(rng, n):
     return out
 
 
-SWEEPS = [sw_evaluate_ranges, sw_multipitch_self, sw_beat, sw_pattern_alignment_tempo, sw_events, sw_transcription, sw_melody, sw_multipitch, sw_hierarchy, sw_segment, sw_keychord, sw_chord, sw_intervals]
+@_quiet
+def sw_segment_relabel(rng, n):
+    """renaming segment labels by a bijection (within each annotation independently, changing their alphabetical order) and
+    permuting nothing else leaves every labelling score of segment.evaluate and the hierarchy L-measure unchanged (C08)"""
+    import numpy as np
+    from mir_eval import segment as S, hierarchy as H
+    from harness import gen_inputs as G
+    out = []
+    keys = ['Pairwise Precision', 'Pairwise Recall', 'Pairwise F-measure', 'Rand Index', 'Adjusted Rand Index', 'Mutual Information',
+            'Adjusted Mutual Information', 'Normalized Mutual Information', 'NCE Over', 'NCE Under', 'NCE F-measure', 'V Precision', 'V Recall', 'V-measure']
+
+    def rename(labels):
+        names = sorted(set(l.lower() for l in labels))
+        new = ['z%02d' % i for i in range(len(names))]
+        rng.shuffle(new)
+        m = dict(zip(names, new))
+        return [m[l.lower()] for l in labels]
+    for _ in range(max(3, n // 6)):
+        ri, rl, ei, el = G.segment(rng)
+        if abs(ri[-1, 1] - ei[-1, 1]) > 1e-9:
+            continue
+        try:
+            a = S.evaluate(ri, rl, ei, el)
+            b = S.evaluate(ri, rename(rl), ei, rename(el))
+        except Exception:  # noqa
+            continue
+        for k in keys:
+            x, y = float(a[k]), float(b[k])
+            if not ((x != x and y != y) or abs(x - y) <= 1e-9):
+                out.append({'function': 'segment.evaluate', 'relation': 'renaming segment labels by a bijection leaves %r unchanged' % k,
+                            'input': [ri.tolist(), rl, ei.tolist(), el], 'observed': [x, y], 'why': ''})
+                return out
+    return out
+
+
+SWEEPS = [sw_segment_relabel, sw_evaluate_ranges, sw_multipitch_self, sw_beat, sw_pattern_alignment_tempo, sw_events, sw_transcription, sw_melody, sw_multipitch, sw_hierarchy, sw_segment, sw_keychord, sw_chord, sw_intervals]
 
 
 def register(fn):
